@@ -38,6 +38,30 @@ CHECKS = {
  "C05": dict(tech="property-based differential testing: every bottom-up compilation route vs. the harness's own CNF / expression / plan evaluators",
    text="Generated search: CNFs (all edge cases) through BDD compile (random order, both caches), SDD compile (random and dtree-derived vtrees), dtree plans on both builders, compile-under-assignment vs compile-then-condition (pointer-equal + iterated cofactor); random expressions (7 constructors) and plans (8 constructors) on both builders. Falsification only; <= 7 variables.",
    note="Trusted: harness evaluators and walkers. CNFs without clauses are not sent through DTree::from_cnf; FORCE not used with empty clauses.", ref="5/C05"),
+ "C07": dict(tech="property-based differential testing of weighted counts across representations against exact brute-force semiring sums",
+   text="Generated search: a function (random truth table or CNF) as BDDs under 3 orders, SDDs under 2 vtrees (one uncompressed), regular and negated, plus both top-down stores; seven semirings with exactly representable normalised weights (all 7 exported primes with boundary residues): every count equals the brute-force sum over models; evaluate() equals the truth table on all assignments; arbitrary weights on canonical BDDs equal the order-aware Shannon sum. Falsification only; n <= 7.",
+   note="Trusted: harness brute force / order-aware count / mulmod / polynomial convolution; exactness of dyadic and small-integer f64 arithmetic.", ref="5/C07"),
+ "C10": dict(tech="model-based stateful property testing: query histories vs. the same single query on a freshly built copy, with a scratch-slot invariant after every call",
+   text="Generated search: pools of diagrams sharing nodes (BDD builder; SDD builder and top-down d-DNNF) under histories of up to 26 queries of 19 kinds with forced repetitions; each answer must equal the answer of that single query on a freshly built copy in a new builder, and every reachable node must report an empty scratch slot after every public call (debug assertions compiled in). Falsification only.",
+   note="Trusted: determinism of the library given identical construction histories; walker for diagram-valued answers.", ref="5/C10"),
+ "C11": dict(tech="property-based testing of the semantic hash against its defining sum (own modular arithmetic) across representations, plus model-based histories of the hash-identified SDD builder",
+   text="Generated search: every representation of a function (BDD orders, vtrees, uncompressed SDD, top-down stores, hash-identified builders over the 64-bit field) hashes to the defining sum over models for three primes; negation = 1 - h; cached = recomputed (twice, after further operations, every internal node). Semantic SDD builder histories over the 64-bit field: results denote the oracle function and eq <=> equal truth tables for all pool pairs. Falsification only.",
+   note="Trusted: harness mulmod/brute force. A 2^-64 collision is treated as impossible; hash-identified builders are asserted over the 64-bit prime only (collisions are expected by design over the 20/29-bit primes).", ref="5/C11"),
+ "C12": dict(tech="property-based testing of optimisation queries against exhaustive maximisation with exact dyadic arithmetic",
+   text="Generated search: functions over <= 6 variables under random orders; all query/decision subsets and orderings (empty, all, outside the support); marginal_map and bb<Real> vs. exhaustive maximum of the restricted weighted count; meu and bb<ExpectedUtility> vs. exhaustive maximum of the order-aware unsmoothed expected utility, in the stated weight domain built by construction; returned assignments must be complete and attain the optimum. Falsification only.",
+   note="Trusted: harness brute force; exact dyadic f64. Ties accept any maximiser.", ref="5/C12"),
+ "C16": dict(tech="model-based testing of the lossy cache against a last-write map, differential testing of builders across cache kinds/sizes, warm/cold differential for SDD caches",
+   text="Generated search: Lru driven with colliding hashes at 1..16 slots vs 'last value per key' (hits counted); identical histories on cache-everything and lossy-cache BDD builders (1..16 slots) must give isomorphic canonical diagrams and the same equality relation; SDD operations re-issued warm must return the same pointer and results recomputed cold from their dependency cone in a fresh builder must be isomorphic. Falsification only.",
+   note="Trusted: structural isomorphism walkers; hook counters for overwrites/growth (evidence only).", ref="5/C16"),
+ "C17": dict(tech="grammar-based generation of DIMACS / s-expression text and round-trip / differential checks with an independent JSON reader",
+   text="Generated search: DIMACS text with arbitrary layout/comments/wrong header counts/empty clauses/missing final 0 parsed by both parsers and round-tripped through to_dimacs; s-expression text with random whitespace and names vs. AST evaluated by name under the lexicographic numbering; BDD/SDD/vtree JSON read by the harness's own reader vs. walked and oracle truth tables. Falsification only.",
+   note="Trusted: harness text generators and JSON reader. Inputs restricted to what the third-party dimacs / serde_sexpr crates accept (probed empirically).", ref="5/C17"),
+ "C18": dict(tech="model-based stateful differential testing of the C ABI (linked extern \"C\" symbols) in lock step with the native builder and the truth-table oracle",
+   text="Generated search: histories of <=40 C-API calls on one manager (three ways of constructing it) interleaved with eq/count/model-count/real/complex/polynomial counts/JSON, plus the one-shot wrappers (cnf_new, cnf_from_dimacs, min-fill order, dtree, vtree, compile, sdd, ddnnf); results are read through the C accessors only and compared with native results and the oracle. Falsification only.",
+   note="Trusted: extern declarations mirror src/ffi signatures; rlib linking of #[no_mangle] symbols.", ref="5/C18"),
+ "C19": dict(tech="property-based black-box testing of the command-line tools as subprocesses on generated files",
+   text="Generated search: formula/weights/config files for weighted_model_count (non-normalised dyadic weights, weight-only names, missing weights, configured orders) compared exactly with brute-force counts; DIMACS and s-expression inputs for both converters, whose JSON output is read by the harness's reader. Falsification only; ~25 ms per process bounds the case count.",
+   note="Trusted: stdout line format, f64 Display round trip, harness brute force and JSON reader. Tools rebuilt from /repo by run_check.sh.", ref="5/C19"),
 }
 
 NOT_YET = {
